@@ -18,8 +18,8 @@ type ival struct {
 	ok     bool // false = unknown (top)
 }
 
-func top() ival               { return ival{} }
-func rng(lo, hi int64) ival   { return ival{lo, hi, true} }
+func top() ival                         { return ival{} }
+func rng(lo, hi int64) ival             { return ival{lo, hi, true} }
 func (a ival) within(lo, hi int64) bool { return a.ok && a.lo >= lo && a.hi <= hi }
 
 func typeRange(t types.Type) ival {
